@@ -209,6 +209,28 @@ def compound_obj(pt, atoms, density=None, natural_density=None):
     return formula(s, density=density, natural_density=natural_density)
 
 
+_BUFFERS = {}
+_BUFLIST = {}
+
+
+def reused_array(ws):
+    """a float64 array holding `ws` that is the SAME object for every call with this length, refilled in
+    place: a result must depend on the values passed, never on the identity of the array (stale memo keyed
+    on the object) – and the callee must not modify it"""
+    import numpy as np
+    buf = _BUFFERS.get(len(ws))
+    if buf is None:
+        buf = _BUFFERS[len(ws)] = np.zeros(len(ws), dtype=float)
+    buf[:] = ws
+    return buf
+
+
+def reused_list(ws):
+    buf = _BUFLIST.setdefault(len(ws), [0.0] * len(ws))
+    buf[:] = ws
+    return buf
+
+
 # --------------------------------------------------------------------------- results
 
 def scat_tuple(res):
